@@ -502,6 +502,9 @@ def run(chk, prog):
         ct = A.show(co["cond"]).replace(" ", "").strip("()")
         th, el = (A.declref(co["then"]) or {}).get("name"), (A.declref(co["else"]) or {}).get("name")
         ok = ct in ("filling.size()>1", "nbuckets>1") and th == "spaced_bins" and el == "padded_bins"
+        # the same selection written the other way round (size and count are unsigned: `<= 1` is the complement of `> 1`)
+        ok = ok or (ct in ("filling.size()<=1", "nbuckets<=1", "filling.size()<2", "nbuckets<2", "!(filling.size()>1)", "!(nbuckets>1)") and th == "padded_bins" and el == "spaced_bins")
+        ok = ok or (ct in ("filling.size()>=2", "nbuckets>=2") and th == "spaced_bins" and el == "padded_bins")
     chk.check(ok, "R1", A.loc(mainf, wk[0]) if wk else mainf.where,
               "main: the wake transform length is the bucket-train length (spaced_bins) whenever there is more than one bucket, else the single-bunch length (selector `%s`)" % ct,
               "main:wake-length-selector:%s" % ct)
